@@ -88,7 +88,12 @@ def write_config(A, fname, section, syntax, rng):
         for path, pats in ents:
             lines.append('%s = [%s]' % (project.toml_str(path), ", ".join(project.toml_str(p) for p in pats)))
         cvline = lines[1]
-    prefix = rng.choice(["", "", "# project configuration\n\n"])
+    # what precedes the section: nothing, a comment, or sections of OTHER tools (bump2version's [bumpversion] with a current_version line of its own, [tool.black], ...)
+    if syntax == "cfg":
+        foreign = ["[bumpversion]\ncurrent_version = 9.9.9\ncommit = True\n\n[bumpversion:file:setup.py]\n\n", "[metadata]\nname = demo\n\n", "[pycalverx]\ncurrent_version = 9.9.9\n\n"]
+    else:
+        foreign = ['[bumpversion]\ncurrent_version = "9.9.9"\n\n', "[tool.black]\nline-length = 100\n\n", '[tool.bumpversion]\ncurrent_version = "9.9.9"\n\n']
+    prefix = rng.choice(["", "", "# project configuration\n\n"] + foreign)
     return prefix + "\n".join(lines) + "\n", cvline
 
 
